@@ -107,6 +107,8 @@ pub struct PointInfo {
 }
 
 pub struct Execution {
+    /// fingerprint of the execution's dictionary after all threads finished
+    pub fingerprint: u64,
     pub points: Vec<PointInfo>,
     pub results: Vec<Result<Vec<String>, String>>,
     pub deadlock: Option<String>,
@@ -123,7 +125,7 @@ pub enum Job {
 
 pub struct Driver {
     pub label: String,
-    pub dict: Dict,
+    pub world: Arc<World>,
     pub jobs: Vec<Job>,
 }
 
@@ -191,8 +193,27 @@ fn fingerprint(dict: &Dict, words: &[u32]) -> u64 {
 }
 
 impl Driver {
+    /// A newly loaded dictionary (same bytes, same configuration).  Every execution gets its own:
+    /// executions are independent of each other, a schedule always starts from the state "just
+    /// loaded", and whatever a dictionary builds lazily is built inside the explored execution.
+    pub fn fresh_dict(&self) -> Dict {
+        let w = &self.world;
+        Arc::new(load(&w.dir, &w.spec.plugins, w.system_bytes.clone(), w.user_bytes.clone()).expect("reload of the concurrency world"))
+    }
+
+    pub fn words(&self) -> Vec<u32> {
+        self.world.all_rows().iter().map(|(d, i, _)| WordId::new(*d as u8, *i as u32).as_raw()).collect()
+    }
+
+    pub fn sequential(&self) -> (Vec<Vec<String>>, u64) {
+        let d = self.fresh_dict();
+        let fp0 = fingerprint(&d, &self.words());
+        (self.jobs.iter().map(|j| run_job(&d, j)).collect(), fp0)
+    }
+
     /// run one schedule: replay `prefix`, then always continue the running thread (choice 0)
     pub fn run(&self, prefix: &[usize]) -> Execution {
+        let shared = self.fresh_dict();
         let n_threads = self.jobs.len();
         let n = n_threads;
         let sched = Sched::new(n);
@@ -200,7 +221,7 @@ impl Driver {
         let mut handles = Vec::new();
         for tid in 0..n {
             let s = sched.clone();
-            let dict = self.dict.clone();
+            let dict = shared.clone();
             let job = self.jobs[tid].clone();
             let res = results.clone();
             handles.push(
@@ -262,7 +283,8 @@ impl Driver {
                 for h in handles {
                     let _ = h.join();
                 }
-                panic!("schedule replay diverged at point {}: choice {} of {} enabled (label {})", i, choice, enabled.len(), label);
+                eprintln!("machinery failure: schedule replay diverged at point {}: choice {} of {} enabled (label {})", i, choice, enabled.len(), label);
+                std::process::exit(2);
             }
             let chosen = enabled[choice];
             (chosen, label).hash(&mut th);
@@ -274,7 +296,8 @@ impl Driver {
             let _ = h.join();
         }
         let results: Vec<Result<Vec<String>, String>> = results.lock().unwrap().iter().map(|r| r.clone().unwrap_or_else(|| Err("thread did not finish".into()))).collect();
-        Execution { points, results, deadlock, trace_hash: th.finish() }
+        let fingerprint = fingerprint(&shared, &self.words());
+        Execution { fingerprint, points, results, deadlock, trace_hash: th.finish() }
     }
 }
 
@@ -294,82 +317,133 @@ pub struct ExploreStats {
     pub samples: Vec<Value>,
 }
 
-/// Explore all schedules of `driver` with at most `bound` preemptions (sequentially: one
-/// scheduler at a time owns the process-wide hook and the lazily initialised globals).
-pub fn explore(driver: &Driver, bound: usize, expected: &[Vec<String>], words: &[u32], fp0: u64, cap: Duration) -> ExploreStats {
+/// Explore all schedules of `driver` with at most `bound` preemptions.  Executions are independent
+/// (each has its own scheduler, threads and newly loaded dictionary; the process-wide lazily built
+/// tables were initialised by the sequential runs), so several are in flight at once.
+pub fn explore(driver: &Driver, bound: usize, expected: &[Vec<String>], fp0: u64, cap: Duration) -> ExploreStats {
     let t0 = Instant::now();
-    let mut st = ExploreStats { schedules: 0, points_total: 0, max_points: 0, distinct_traces: HashSet::new(), distinct_observations: HashSet::new(), preempting_schedules: 0, violation: None, capped: false, samples: Vec::new() };
-    let mut stack: Vec<Vec<usize>> = vec![vec![]];
-    while let Some(prefix) = stack.pop() {
-        if t0.elapsed() > cap {
-            st.capped = true;
-            break;
-        }
-        let x = driver.run(&prefix);
-        st.schedules += 1;
-        st.points_total += x.points.len() as u64;
-        st.max_points = st.max_points.max(x.points.len() as u64);
-        st.distinct_traces.insert(x.trace_hash);
-        let choices: Vec<usize> = x.points.iter().map(|p| p.chosen).collect();
-        if preemptions_before(&x.points, x.points.len()) > 0 {
-            st.preempting_schedules += 1;
-        }
-        // replay-twice determinism check on the first schedules
-        if st.schedules <= 40 {
-            let y = driver.run(&choices);
-            if y.trace_hash != x.trace_hash || y.results != x.results {
-                panic!("uncontrolled nondeterminism: replaying schedule {:?} gave a different trace", choices);
-            }
-        }
-        // oracle
-        let mut fails = Vec::new();
-        if let Some(d) = &x.deadlock {
-            fails.push(Failure::new("deadlock", format!("[{}] schedule {:?}: {}", driver.label, choices, d)));
-        }
-        let mut oh = DefaultHasher::new();
-        for (tid, r) in x.results.iter().enumerate() {
-            match r {
-                Err(e) => fails.push(Failure::new("thread-failed", format!("[{}] schedule {:?}: thread {} failed: {}", driver.label, compact(&choices), tid, e))),
-                Ok(v) => {
-                    v.hash(&mut oh);
-                    if v != &expected[tid] {
-                        let first = v.iter().zip(expected[tid].iter()).position(|(a, b)| a != b).unwrap_or(v.len().min(expected[tid].len()));
-                        fails.push(Failure::new(
-                            "result-differs-from-sequential",
-                            format!("[{}] schedule {:?}: thread {} obtained a result different from its single-threaded run; first difference at item {}: {:?} vs {:?}", driver.label, compact(&choices), tid, first, v.get(first), expected[tid].get(first)),
-                        ));
+    struct Shared {
+        st: ExploreStats,
+        stack: Vec<Vec<usize>>,
+        in_flight: usize,
+        stop: bool,
+    }
+    let shared = Mutex::new(Shared {
+        st: ExploreStats { schedules: 0, points_total: 0, max_points: 0, distinct_traces: HashSet::new(), distinct_observations: HashSet::new(), preempting_schedules: 0, violation: None, capped: false, samples: Vec::new() },
+        stack: vec![vec![]],
+        in_flight: 0,
+        stop: false,
+    });
+    let workers = std::env::var("VERIF_C18_WORKERS").ok().and_then(|v| v.parse().ok()).unwrap_or(4usize).max(1);
+    std::thread::scope(|scope| {
+        for _ in 0..workers {
+            scope.spawn(|| loop {
+                let prefix = {
+                    let mut g = shared.lock().unwrap();
+                    if g.stop {
+                        return;
+                    }
+                    if t0.elapsed() > cap && (!g.stack.is_empty() || g.in_flight > 0) {
+                        g.st.capped = true;
+                        g.stop = true;
+                        return;
+                    }
+                    match g.stack.pop() {
+                        Some(p) => {
+                            g.in_flight += 1;
+                            p
+                        }
+                        None => {
+                            if g.in_flight == 0 {
+                                return;
+                            }
+                            drop(g);
+                            std::thread::sleep(Duration::from_micros(200));
+                            continue;
+                        }
+                    }
+                };
+                let x = driver.run(&prefix);
+                let choices: Vec<usize> = x.points.iter().map(|p| p.chosen).collect();
+                let first_ones = shared.lock().unwrap().st.schedules < 40;
+                // replay-twice determinism check on the first schedules
+                if first_ones {
+                    let y = driver.run(&choices);
+                    if y.trace_hash != x.trace_hash || y.results != x.results || y.fingerprint != x.fingerprint {
+                        // the same schedule on two newly loaded dictionaries behaves differently:
+                        // nothing the scheduler controls explains that
+                        eprintln!("uncontrolled nondeterminism: replaying schedule {:?} gave a different trace", compact(&choices));
+                        std::process::exit(2);
                     }
                 }
-            }
-        }
-        st.distinct_observations.insert(oh.finish());
-        let fp = fingerprint(&driver.dict, words);
-        if fp != fp0 {
-            fails.push(Failure::new("dictionary-modified", format!("[{}] schedule {:?}: the shared dictionary's fingerprint changed", driver.label, compact(&choices))));
-        }
-        if st.samples.len() < 3 && st.schedules % 97 == 1 {
-            st.samples.push(json!({"driver": driver.label, "bound": bound, "choices": compact(&choices), "points": x.points.len(), "labels": x.points.iter().take(12).map(|p| p.label).collect::<Vec<_>>()}));
-        }
-        if !fails.is_empty() {
-            st.violation = Some((choices, fails));
-            break;
-        }
-        // branch
-        for i in prefix.len()..x.points.len() {
-            let p = &x.points[i];
-            let before = preemptions_before(&x.points, i);
-            for alt in 1..p.enabled.len() {
-                let cost = before + if p.running_still_enabled { 1 } else { 0 };
-                if cost > bound {
-                    continue;
+                // oracle
+                let mut fails = Vec::new();
+                if let Some(d) = &x.deadlock {
+                    fails.push(Failure::new("deadlock", format!("[{}] schedule {:?}: {}", driver.label, compact(&choices), d)));
                 }
-                let mut np: Vec<usize> = choices[..i].to_vec();
-                np.push(alt);
-                stack.push(np);
-            }
+                let mut oh = DefaultHasher::new();
+                for (tid, r) in x.results.iter().enumerate() {
+                    match r {
+                        Err(e) => fails.push(Failure::new("thread-failed", format!("[{}] schedule {:?}: thread {} failed: {}", driver.label, compact(&choices), tid, e))),
+                        Ok(v) => {
+                            v.hash(&mut oh);
+                            if v != &expected[tid] {
+                                let first = v.iter().zip(expected[tid].iter()).position(|(a, b)| a != b).unwrap_or(v.len().min(expected[tid].len()));
+                                fails.push(Failure::new(
+                                    "result-differs-from-sequential",
+                                    format!("[{}] schedule {:?}: thread {} obtained a result different from its single-threaded run; first difference at item {}: {:?} vs {:?}", driver.label, compact(&choices), tid, first, v.get(first), expected[tid].get(first)),
+                                ));
+                            }
+                        }
+                    }
+                }
+                if x.fingerprint != fp0 {
+                    fails.push(Failure::new("dictionary-modified", format!("[{}] schedule {:?}: the shared dictionary's fingerprint changed", driver.label, compact(&choices))));
+                }
+                let mut g = shared.lock().unwrap();
+                g.in_flight -= 1;
+                g.st.schedules += 1;
+                g.st.points_total += x.points.len() as u64;
+                g.st.max_points = g.st.max_points.max(x.points.len() as u64);
+                g.st.distinct_traces.insert(x.trace_hash);
+                if preemptions_before(&x.points, x.points.len()) > 0 {
+                    g.st.preempting_schedules += 1;
+                }
+                g.st.distinct_observations.insert(oh.finish());
+                if g.st.samples.len() < 3 && g.st.schedules % 97 == 1 {
+                    let v = json!({"driver": driver.label, "bound": bound, "choices": compact(&choices), "points": x.points.len(), "labels": x.points.iter().take(12).map(|p| p.label).collect::<Vec<_>>()});
+                    g.st.samples.push(v);
+                }
+                if !fails.is_empty() {
+                    // keep the violation with the fewest preemptions, then the shortest prefix
+                    let better = match &g.st.violation {
+                        None => true,
+                        Some((c, _)) => (choices.iter().filter(|&&k| k != 0).count(), choices.len()) < (c.iter().filter(|&&k| k != 0).count(), c.len()),
+                    };
+                    if better {
+                        g.st.violation = Some((choices, fails));
+                    }
+                    g.stop = true;
+                    return;
+                }
+                // branch
+                for i in prefix.len()..x.points.len() {
+                    let p = &x.points[i];
+                    let before = preemptions_before(&x.points, i);
+                    for alt in 1..p.enabled.len() {
+                        let cost = before + if p.running_still_enabled { 1 } else { 0 };
+                        if cost > bound {
+                            continue;
+                        }
+                        let mut np: Vec<usize> = choices[..i].to_vec();
+                        np.push(alt);
+                        g.stack.push(np);
+                    }
+                }
+            });
         }
-    }
-    st
+    });
+    shared.into_inner().unwrap().st
 }
 
 /// run-length rendering of a choice list (mostly zeros)
@@ -401,55 +475,92 @@ fn concurrency_world() -> Arc<World> {
     Arc::new(World::build(spec).expect("W-conc"))
 }
 
-fn drivers_for(tier: Tier, dict: &Dict) -> Vec<(Driver, Vec<usize>)> {
+/// a world without user dictionaries: loading it analyses nothing, so whatever the dictionary or a
+/// plugin builds on first use is built by the explored threads themselves
+fn first_use_world() -> Arc<World> {
+    let mut spec = spec_full("W-conc-first-use", true);
+    spec.plugins["oovProviderPlugin"] = json!([regex_oov("[a-z0-9]+-[a-z0-9]+|[a-z]{2,}", 1, 1, 3000, P_NOUN, 16, false), mecab_oov(false), simple_oov(5, 5, 3857, P_SYM, false)]);
+    Arc::new(World::build(spec).expect("W-conc-first-use"))
+}
+
+fn drivers_for(tier: Tier, world: &Arc<World>, first: &Arc<World>) -> Vec<(Driver, Vec<usize>)> {
     let t = |m: Mode, v: &[&str]| Job::Tokenize { mode: m, texts: v.iter().map(|s| s.to_string()).collect() };
+    let w = || world.clone();
     match tier {
         Tier::Quick => vec![
-            (Driver { label: "2 threads x 2 analyses".into(), dict: dict.clone(), jobs: vec![t(Mode::A, &["東京都二千円", "カタア"]), t(Mode::C, &["1,000㍿", "東京府xag-2f"])] }, vec![0, 1]),
-            (Driver { label: "3 threads x 1 analysis".into(), dict: dict.clone(), jobs: vec![t(Mode::B, &["三百xyz"]), t(Mode::C, &["すだちア"]), Job::Sentences { text: "あ。な。な。い".into() }] }, vec![0, 1]),
-            (Driver { label: "2 threads x 1 short analysis".into(), dict: dict.clone(), jobs: vec![t(Mode::A, &["二千xyz"]), t(Mode::C, &["1,0だ"])] }, vec![0, 1, 2]),
+            (Driver { label: "2 threads x 2 analyses".into(), world: w(), jobs: vec![t(Mode::A, &["東京都二千円", "カタア"]), t(Mode::C, &["1,000㍿", "東京府xag-2f"])] }, vec![0, 1]),
+            (Driver { label: "3 threads x 1 analysis".into(), world: w(), jobs: vec![t(Mode::B, &["三百xyz"]), t(Mode::C, &["すだちア"]), Job::Sentences { text: "あ。な。な。い".into() }] }, vec![0, 1]),
+            (Driver { label: "2 threads x 1 short analysis".into(), world: w(), jobs: vec![t(Mode::A, &["二千xyz"]), t(Mode::C, &["1,0だ"])] }, vec![0, 1, 2]),
+            (Driver { label: "2 threads, katakana runs of different length".into(), world: w(), jobs: vec![t(Mode::C, &["アイアイウ"]), t(Mode::C, &["京都に行った"])] }, vec![0, 1, 2]),
+            (Driver { label: "2 threads, first use of a system-only dictionary".into(), world: first.clone(), jobs: vec![t(Mode::C, &["か゛ｳﾞ三"]), t(Mode::A, &["は゜アー"])] }, vec![0, 1, 2]),
         ],
         Tier::Thorough => vec![
-            (Driver { label: "2 threads x 2 analyses".into(), dict: dict.clone(), jobs: vec![t(Mode::A, &["東京都に行く二千三百円", "カタカタア(あ)"]), t(Mode::C, &["1,000円㍿東京府", "すだちxag-2f"])] }, vec![0, 1, 2]),
-            (Driver { label: "3 threads x 1 analysis".into(), dict: dict.clone(), jobs: vec![t(Mode::B, &["二千三百xyz"]), t(Mode::C, &["すだちアイ"]), Job::Sentences { text: "あ。な。な。い！と。".into() }] }, vec![0, 1, 2]),
-            (Driver { label: "2 threads, same text".into(), dict: dict.clone(), jobs: vec![t(Mode::C, &["東京都(とうきょうと)に1,234円xy"]), t(Mode::C, &["東京都(とうきょうと)に1,234円xy"])] }, vec![0, 1, 2]),
+            (Driver { label: "2 threads x 2 analyses".into(), world: w(), jobs: vec![t(Mode::A, &["東京都に行く二千三百円", "カタカタア(あ)"]), t(Mode::C, &["1,000円㍿東京府", "すだちxag-2f"])] }, vec![0, 1, 2]),
+            (Driver { label: "3 threads x 1 analysis".into(), world: w(), jobs: vec![t(Mode::B, &["二千三百xyz"]), t(Mode::C, &["すだちアイ"]), Job::Sentences { text: "あ。な。な。い！と。".into() }] }, vec![0, 1, 2]),
+            (Driver { label: "2 threads, same text".into(), world: w(), jobs: vec![t(Mode::C, &["東京都(とうきょうと)に1,234円xy"]), t(Mode::C, &["東京都(とうきょうと)に1,234円xy"])] }, vec![0, 1, 2]),
+            (Driver { label: "2 threads, katakana runs of different length".into(), world: w(), jobs: vec![t(Mode::C, &["アイアイウとカタ"]), t(Mode::C, &["京都に行った"])] }, vec![0, 1, 2]),
+            (Driver { label: "3 threads, first use of a system-only dictionary".into(), world: first.clone(), jobs: vec![t(Mode::C, &["か゛ｳﾞ三"]), t(Mode::A, &["は゜アー"]), t(Mode::B, &["二千(に)"])] }, vec![0, 1, 2]),
         ],
     }
 }
 
-/// The same thread bodies, free-running (no scheduler): meant to be executed by a binary built
-/// with ThreadSanitizer.  A monitor, not an enumeration.
-pub fn free_run() -> i32 {
+/// The same thread bodies, free-running (no scheduler) behind a start barrier, every round on a
+/// newly loaded dictionary.  A monitor, not an enumeration: a mismatch it reports is a real
+/// execution of the real code, silence proves nothing.  Under ThreadSanitizer (thorough tier) it
+/// also reports unsynchronised accesses the cooperative scheduler cannot see.
+pub fn free_rounds(tier: Tier, rounds: usize) -> Result<u64, String> {
     let world = concurrency_world();
-    let dict = world.dict.clone();
+    let first = first_use_world();
     let mut runs = 0u64;
-    for (d, _) in drivers_for(Tier::Thorough, &dict) {
-        let expected: Vec<Vec<String>> = d.jobs.iter().map(|j| run_job(&d.dict, j)).collect();
-        for _ in 0..30 {
+    for (d, _) in drivers_for(tier, &world, &first) {
+        let (expected, fp0) = d.sequential();
+        for _ in 0..rounds {
+            let dict = d.fresh_dict();
+            let gate = Arc::new(std::sync::atomic::AtomicUsize::new(0));
+            let n = d.jobs.len();
             let mut hs = Vec::new();
             for j in d.jobs.iter().cloned() {
-                let dict = d.dict.clone();
-                hs.push(std::thread::spawn(move || run_job(&dict, &j)));
+                let dict = dict.clone();
+                let gate = gate.clone();
+                hs.push(std::thread::spawn(move || {
+                    gate.fetch_add(1, Ordering::AcqRel);
+                    while gate.load(Ordering::Acquire) < n {
+                        std::hint::spin_loop();
+                    }
+                    run_job(&dict, &j)
+                }));
             }
             for (i, h) in hs.into_iter().enumerate() {
                 match h.join() {
                     Ok(r) => {
                         if r != expected[i] {
-                            println!("FREE-RUN-MISMATCH driver {:?} thread {}", d.label, i);
-                            return 1;
+                            let k = r.iter().zip(expected[i].iter()).position(|(a, b)| a != b).unwrap_or(0);
+                            return Err(format!("driver {:?}: free-running thread {} obtained a result different from its single-threaded run: item {}: {:?} vs {:?}", d.label, i, k, r.get(k), expected[i].get(k)));
                         }
                     }
-                    Err(_) => {
-                        println!("FREE-RUN-PANIC driver {:?} thread {}", d.label, i);
-                        return 1;
-                    }
+                    Err(_) => return Err(format!("driver {:?}: free-running thread {} panicked", d.label, i)),
                 }
+            }
+            if fingerprint(&dict, &d.words()) != fp0 {
+                return Err(format!("driver {:?}: the shared dictionary's fingerprint changed in a free-running round", d.label));
             }
             runs += 1;
         }
     }
-    println!("FREE-RUN-OK rounds={}", runs);
-    0
+    Ok(runs)
+}
+
+pub fn free_run() -> i32 {
+    match free_rounds(Tier::Thorough, 30) {
+        Ok(n) => {
+            println!("FREE-RUN-OK rounds={}", n);
+            0
+        }
+        Err(e) => {
+            println!("FREE-RUN-MISMATCH {}", e);
+            1
+        }
+    }
 }
 
 /// build the harness with ThreadSanitizer (nightly, -Zbuild-std) and run `vcheck c18-free` under it
@@ -489,7 +600,7 @@ fn tsan_pass() -> Result<String, Result<String, String>> {
 
 pub fn main(tier: Tier, replay: Option<String>) -> i32 {
     let mut rep = Report::new("C18", "model_checking", tier);
-    rep.rule = "every interleaving, at the granularity of the sched_point hooks compiled into sudachi, of 2 threads x 2 analyses and 3 threads x 1 analysis (one of them sentence splitting with the dictionary checker) over one shared Arc<JapaneseDictionary> with every plugin type and two user dictionaries, with at most `bound` preemptions (iterated 0, 1, 2); per schedule every thread's morphemes (all fields) must equal its single-threaded result, the dictionary fingerprint (every connection cell, word parameter, word info, POS list) must be unchanged, no thread may panic or block outside the scheduler; non-trivial = the schedule contains at least one preemption".into();
+    rep.rule = "every interleaving, at the granularity of the sched_point hooks compiled into sudachi, of the listed drivers (2 threads x 2 analyses, 3 threads x 1 analysis with one thread splitting sentences through the dictionary checker, 2 short analyses, katakana runs of different length, the first analyses on a newly loaded system-only dictionary) with at most `bound` preemptions (iterated 0, 1, 2); every execution runs on its own newly loaded dictionary (every plugin type, two user dictionaries), so executions are independent and a schedule replays identically; per schedule every thread's morphemes (all fields) must equal its single-threaded result on another instance, the dictionary fingerprint (every connection cell, word parameter, word info, POS list) must equal the freshly loaded one, no thread may panic or block outside the scheduler; non-trivial = the schedule contains at least one preemption.  Afterwards the same bodies run free behind a start barrier (monitor, not enumeration; thorough tier: also under ThreadSanitizer)".into();
     rep.assumptions = vec![
         "scheduling points exist only at the hook sites (between input plugins, per lattice position, after lookup, after each OOV provider, per best-path node, before each path-rewrite plugin, per split node, per MeCab category, per numeral/katakana joiner step, per sentence): races inside one such section, memory-ordering effects and the internals of regex / lazy_static / std::sync::Once are not explored".into(),
         "lazily built process-wide tables are initialised once per process, so only the first schedules can interleave their construction".into(),
@@ -497,22 +608,34 @@ pub fn main(tier: Tier, replay: Option<String>) -> i32 {
     ];
     sudachi::verif::set_sched_hook(Some(hook));
     let world = concurrency_world();
-    let dict = world.dict.clone();
+    let first = first_use_world();
     fn assert_send_sync<T: Send + Sync>() {}
     assert_send_sync::<sudachi::dic::dictionary::JapaneseDictionary>();
-    let words: Vec<u32> = world.all_rows().iter().map(|(d, i, _)| WordId::new(*d as u8, *i as u32).as_raw()).collect();
-    let fp0 = fingerprint(&dict, &words);
-    let drivers = drivers_for(tier, &dict);
+    let drivers = drivers_for(tier, &world, &first);
     if let Some(path) = replay {
         let txt = std::fs::read_to_string(&path).expect("replay file");
         let v: Value = serde_json::from_str(&txt).expect("json");
         let label = v["state"]["driver"].as_str().unwrap_or("");
         let choices: Vec<usize> = v["state"]["choices"].as_array().map(|a| a.iter().filter_map(|x| x.as_u64().map(|n| n as usize)).collect()).unwrap_or_default();
+        if label == "free-run" {
+            // the monitor has no schedule to replay: run it again
+            return match free_rounds(tier, 200) {
+                Ok(_) => {
+                    println!("replay: the free-running monitor saw no difference in 200 rounds per driver");
+                    0
+                }
+                Err(e) => {
+                    println!("{}", e);
+                    println!("VIOLATION property=C18 replay={}", path);
+                    1
+                }
+            };
+        }
         for (d, _) in &drivers {
             if d.label == label {
-                let expected: Vec<Vec<String>> = d.jobs.iter().map(|j| run_job(&d.dict, j)).collect();
+                let (expected, fp0) = d.sequential();
                 let x = d.run(&choices);
-                let bad = x.deadlock.is_some() || x.results.iter().enumerate().any(|(i, r)| r.as_ref().ok() != Some(&expected[i]));
+                let bad = x.deadlock.is_some() || x.fingerprint != fp0 || x.results.iter().enumerate().any(|(i, r)| r.as_ref().ok() != Some(&expected[i]));
                 if bad {
                     println!("VIOLATION property=C18 replay={}", path);
                     return 1;
@@ -528,10 +651,15 @@ pub fn main(tier: Tier, replay: Option<String>) -> i32 {
     let t0 = Instant::now();
     'outer: for (d, bounds) in &drivers {
         // sequential reference (also initialises every lazily built global before exploring)
-        let expected: Vec<Vec<String>> = d.jobs.iter().map(|j| run_job(&d.dict, j)).collect();
+        let (expected, fp0) = d.sequential();
+        // the sequential run is itself deterministic across dictionary instances
+        let (again, fp1) = d.sequential();
+        if again != expected || fp1 != fp0 {
+            panic!("two sequential runs on two newly loaded dictionaries differ (driver {})", d.label);
+        }
         for &b in bounds {
             let remaining = cap_total.checked_sub(t0.elapsed()).unwrap_or(Duration::from_secs(1));
-            let st = explore(d, b, &expected, &words, fp0, remaining);
+            let st = explore(d, b, &expected, fp0, remaining);
             let bound_json = json!({"driver": d.label, "preemption_bound": b, "schedules": st.schedules, "scheduling_points_per_execution_max": st.max_points});
             let completed = !st.capped && st.violation.is_none();
             rep.states += st.schedules;
@@ -564,6 +692,17 @@ pub fn main(tier: Tier, replay: Option<String>) -> i32 {
         }
     }
     sudachi::verif::set_sched_hook(None);
+    if !rep.has_violation() {
+        // free-running monitor (no scheduler, start barrier, a new dictionary per round)
+        match free_rounds(tier, tier.pick(40, 200)) {
+            Ok(n) => {
+                rep.extra.insert("free_running_monitor".into(), json!({"rounds": n, "result": "every thread equal to its sequential run", "note": "monitor over free-running threads, not an enumeration"}));
+            }
+            Err(e) => {
+                rep.violations.push(("free-running monitor".into(), json!({"driver": "free-run"}), vec![Failure::new("free-run-differs-from-sequential", e)]));
+            }
+        }
+    }
     if tier == Tier::Thorough && !rep.has_violation() {
         // separate free-running pass of the same bodies under ThreadSanitizer: a monitor for
         // unsynchronised accesses that do not straddle a hook; it is not an enumeration
